@@ -3,7 +3,7 @@
 import json, os, shutil, sys
 pid, v, breaks, needs, detected = sys.argv[1:6]
 missed = sys.argv[6] if len(sys.argv) > 6 else ''
-ROOT = os.environ.get('SEED_ROOT', '/tmp/seed5')
+ROOT = os.environ.get('SEED_ROOT', '/tmp/seed6')
 src = f'{ROOT}/{pid}out/{v}'
 dst = f'/verif/seeded/{pid}{os.environ.get("SEED_SUFFIX", v)}'
 os.makedirs(dst, exist_ok=True)
